@@ -15,7 +15,9 @@ RULE = ("Cases: signals of length 3..400 from all families (short noisy ones ove
         "required when the reference stops within max_iters iterations, the error when it needs more than "
         "max_iters+1, either at exactly max_iters+1 (docstring and code differ by one). Mismatches are only "
         "reported when the reference's decisions were well conditioned (stop metric > 1e-9 from its threshold, no "
-        "adjacent samples of a later iterate closer than 1e-10). Non-trivial: the reference needed >= 2 iterations.")
+        "adjacent samples of a later iterate closer than 1e-10). (pool) extractions that cannot converge, run inside pool workers through get_next_imf_mask / mask_sift / ensemble_sift in "
+        "a fresh interpreter: the call must end in the convergence error (or return), never hang or fail otherwise. "
+        "Non-trivial: the reference needed >= 2 iterations.")
 ASSUMPTIONS = ["scipy interpolators shared by implementation and reference are trusted; the oracle is about the "
                "iteration, stopping and limit logic", "a single extraction running > 240 s counts as non-termination"]
 
@@ -148,7 +150,83 @@ def oracle(case, rec):
     return r.niters >= 2
 
 
+POOL_SCRIPT = r'''
+import sys, json, warnings
+warnings.filterwarnings('ignore')
+if __name__ == '__main__':
+    sys.path.insert(0, sys.argv[1]); sys.path.insert(0, sys.argv[2])
+    import numpy as np
+    import emd
+    from vp import gens
+    spec = json.loads(sys.argv[3])
+    x = gens.sig_of(spec['sig'])
+    opts = spec['opts']
+    out = 'returned'
+    try:
+        if spec['route'] == 'get_next_imf_mask':
+            emd.sift.get_next_imf_mask(x[:, None], 0.2, 0.5, nphases=spec['nphases'], nprocesses=spec['nproc'], imf_opts=opts)
+        elif spec['route'] == 'mask_sift':
+            emd.sift.mask_sift(x, max_imfs=2, mask_freqs=[0.2, 0.07], nphases=spec['nphases'], nprocesses=spec['nproc'], imf_opts=opts)
+        else:
+            np.random.seed(3)
+            emd.sift.ensemble_sift(x, max_imfs=2, nensembles=2, nprocesses=spec['nproc'], imf_opts=opts)
+    except emd.support.EMDSiftCovergeError:
+        out = 'EMDSiftCovergeError'
+    except BaseException as e:
+        out = 'other:' + type(e).__name__
+    sys.stdout.write(out)
+'''
+
+
+@st.composite
+def pool_case(draw):
+    sig = {'family': draw(st.sampled_from(['noise', 'tones', 'walk'])), 'n': draw(st.sampled_from([48, 64, 100])),
+           'k': draw(st.integers(0, 2**32 - 1)), 'p1': draw(st.floats(0, 1)), 'p2': draw(st.floats(0, 1))}
+    return {'sig': sig, 'route': draw(st.sampled_from(['get_next_imf_mask', 'mask_sift', 'ensemble_sift'])),
+            'nproc': draw(st.sampled_from([1, 2, 3])), 'nphases': draw(st.sampled_from([1, 2, 4])),
+            'opts': {'stop_method': draw(st.sampled_from(['sd', 'rilling'])), 'max_iters': draw(st.integers(1, 3)),
+                     'sd_thresh': 1e-12, 'rilling_thresh': [1e-9, 1e-8, 1e-9]}}
+
+
+def oracle_pool(case, rec):
+    """An extraction that cannot converge within its limit must end in the documented convergence error also when it runs
+    in a pool worker (masked / ensemble sifts): the call may neither hang nor fail differently."""
+    import os
+    import sys
+    import json
+    import subprocess
+    import tempfile
+    from ..core import REPO, VERIF
+    x = gens.sig_of(case['sig'])
+    r = refmodel.ref_extract(x + 0.0, hard_cap=case['opts']['max_iters'] + 3, stop_method=case['opts']['stop_method'],
+                             max_iters=case['opts']['max_iters'], sd_thresh=1e-12, rilling_thresh=(1e-9, 1e-8, 1e-9))
+    with tempfile.NamedTemporaryFile('w', suffix='.py', dir='/dev/shm' if os.path.isdir('/dev/shm') else None, delete=False) as f:
+        f.write(POOL_SCRIPT)
+        script = f.name
+    try:
+        try:
+            p = subprocess.run([sys.executable, '-W', 'ignore', script, REPO, VERIF, json.dumps(case)], capture_output=True,
+                               text=True, timeout=90, env=dict(os.environ, PYTHONPATH=VERIF))
+            out = p.stdout.strip() if p.returncode == 0 else 'crashed:' + p.stderr[-300:]
+        except subprocess.TimeoutExpired:
+            out = 'hang'
+    finally:
+        os.unlink(script)
+        subprocess.run(['pkill', '-f', script], capture_output=True)
+    rec.cls('route=' + case['route'])
+    rec.cls('outcome=' + out.split(':')[0])
+    if out == 'hang':
+        raise Violation('C04/pool/no-termination/' + case['route'],
+                        'a non-converging extraction inside a pool worker: the call did not return within 90 s')
+    if out.startswith('other') or out.startswith('crashed'):
+        raise Violation('C04/pool/fails-with-another-error/' + case['route'], out)
+    # masked / noisy inputs differ from x, so the reference on x only tells us what is *likely*; both outcomes are legitimate
+    return out == 'EMDSiftCovergeError'
+
+
 CLAUSES = [
+    Clause('C04.pool', oracle_pool, strategy=pool_case(), quick=32, thorough=320, shards=(16, 16),
+           nt_rule='the pooled call ended in the documented convergence error'),
     Clause('C04.differential', oracle, strategy=case(), quick=5000, thorough=120000, shards=(8, 16),
            nt_rule='reference needed >= 2 iterations'),
     Clause('C04.vanish', oracle, strategy=vanish_case(), quick=3000, thorough=60000, shards=(8, 16),
